@@ -149,13 +149,14 @@ type Runner struct {
 	Stats     Stats
 	probeFlip bool
 	phRng     *rand.Rand
+	malformed map[int]bool
 	prevRead  []byte
 	prevCopy  []byte
 }
 
 // NewRunner creates a runner over an opened environment.
 func NewRunner(env *dbx.Env, opt Options) *Runner {
-	return &Runner{Env: env, M: refmodel.New(), Txs: map[int]fs_db.Tx{}, Opt: opt, Stats: Stats{OpClass: map[string]int64{}}, phRng: rand.New(rand.NewSource(42))}
+	return &Runner{Env: env, M: refmodel.New(), Txs: map[int]fs_db.Tx{}, Opt: opt, Stats: Stats{OpClass: map[string]int64{}}, phRng: rand.New(rand.NewSource(42)), malformed: map[int]bool{}}
 }
 
 func (r *Runner) store(actor int) fs_db.Store {
@@ -174,6 +175,10 @@ func (r *Runner) actorKind(actor int) string {
 	}
 	if r.M.IsOpen(actor) {
 		return "open-" + r.M.LevelOf(actor).String()
+	}
+	if r.malformed[actor] {
+		// never begun, and named by something that is not even an id
+		return "unknown-malformed-id"
 	}
 	return "ended-" + r.M.LevelOf(actor).String()
 }
@@ -361,7 +366,9 @@ func (r *Runner) checkClass(idx int, s Step, got error, want refmodel.ErrClass) 
 		return nil
 	}
 	what := "wrong-error"
-	if want == refmodel.TxNotFound && cls == refmodel.OK {
+	if want == refmodel.TxNotFound && r.malformed[s.Actor] && got != nil && strings.Contains(got.Error(), "marshal file: invalid file format") {
+		what = "late-write-fails-at-record-encoding"
+	} else if want == refmodel.TxNotFound && cls == refmodel.OK {
 		switch s.Op {
 		case "set", "setreader", "create", "delete":
 			what = "late-write-accepted"
@@ -401,6 +408,21 @@ func (r *Runner) Do(idx int, s Step) *Mismatch {
 		}
 	case "phantom":
 		id := fmt.Sprintf("%08x-%04x-4%03x-8%03x-%012x", r.phRng.Uint32(), r.phRng.Intn(1<<16), r.phRng.Intn(1<<12), r.phRng.Intn(1<<12), r.phRng.Int63n(1<<48))
+		// an unknown transaction is unknown whatever its name looks like
+		switch r.phRng.Intn(8) {
+		case 0:
+			id = fmt.Sprint(r.phRng.Intn(1000))
+			r.malformed[s.Actor] = true
+		case 1:
+			id = "tx-" + id[:8]
+			r.malformed[s.Actor] = true
+		case 2:
+			id = strings.ToUpper(id)
+		case 3:
+			id = "{" + id + "}"
+		case 4:
+			id = strings.ReplaceAll(id, "-", "")
+		}
 		r.Txs[s.Actor] = verif.TxHandle(r.Env.DB, id)
 	case "set", "setreader", "create":
 		content := Content(s.Tag, s.Len)
